@@ -156,7 +156,32 @@ def r_ids(ctx):
     ctx.ob(rid, 'debug_symbols:source', len(rets) == 1 and rets[0] == 'with_file(self.call_tracker, file)', 'Program::debug_symbols = call_tracker.with_file(file)', ds.where(), str(rets))
 
 
+def r_map_value(ctx):
+    rid = 'R14.6'
+    ctx.rule(rid, 'TrackedCall::map_value reconstructs the run-time value at the type recorded for that call kind and keeps the call text')
+    fx = ctx.facts()
+    fn = ctx.anchor(fx, 'debug::TrackedCall::map_value')
+    got = {}
+    for kind, p, ret in explore(ctx, fn, follow_break=False):
+        if kind != 'RET':
+            continue
+        lab = [l for w, l in p.conds if 'name(self)' in S(w)]
+        if lab:
+            got[lab[0]] = S(ret)
+    exp_sub = {'UnwrapLeft': ('reconstruct(value, name(self)@UnwrapLeft.0)', 'UnwrapLeft'), 'UnwrapRight': ('reconstruct(value, name(self)@UnwrapRight.0)', 'UnwrapRight'),
+               'Debug': ('reconstruct(value, name(self)@Debug.0)', 'Right')}
+    for k, (sub, ctor) in exp_sub.items():
+        v = got.get(k, '')
+        ctx.ob(rid, 'map_value:' + k, sub in v and ctor in v, '%s: value reconstructed at the tracked type and wrapped as %s' % (k, ctor), fn.where(), v[:300])
+    for k, ctor in (('Assert', 'Assert{}'), ('Panic', 'Panic{}'), ('Jet', 'Jet{}'), ('Unwrap', 'Unwrap{}')):
+        v = got.get(k, '')
+        ctx.ob(rid, 'map_value:' + k, ctor in v and 'self.text' in v, '%s maps to FallibleCallName::%s with the call text' % (k, ctor), fn.where(), v[:200])
+
+
 def check(ctx):
     r_neutral(ctx)
     r_same_key(ctx)
     r_ids(ctx)
+    from . import c07
+    c07.r_reconstruct(ctx)
+    r_map_value(ctx)
